@@ -414,3 +414,252 @@ if __name__ == "__main__":
         body.append("call PJ6 %d %s 1 z" % (bid, point(g)))
         emit_case(out, "s%d" % i, mb, g, body)
     print("\n".join(out))
+
+
+# ================================================================================================
+# constraint sets: on-manifold loop placement and consistent velocities need exact kinematics;
+# they are obtained from the executable Lean model (exact rationals), never from the C++.
+MODEL_EXE = None
+
+
+def parse_fr(tok):
+    if "/" in tok:
+        a, b = tok.split("/")
+        return F(int(a), int(b))
+    return F(int(tok))
+
+
+def lean_query(text):
+    import subprocess
+    r = subprocess.run([MODEL_EXE], input=text, capture_output=True, text=True, timeout=600)
+    out = {}
+    for line in r.stdout.splitlines():
+        p = line.split()
+        if len(p) >= 2:
+            out[(p[0], p[1])] = p[2:]
+    return out
+
+
+def mat_T(A):
+    return [[A[j][i] for j in range(3)] for i in range(3)]
+
+
+def mat_mul(A, B):
+    return [[sum(A[i][k] * B[k][j] for k in range(3)) for j in range(3)] for i in range(3)]
+
+
+def mat_vec(A, v):
+    return [sum(A[i][k] * v[k] for k in range(3)) for i in range(3)]
+
+
+def body_poses(mb, grav_line, qline, ids):
+    """{id: (E (base->body, rows), p (origin in base coordinates))} from the Lean model"""
+    lines = ["case fk", grav_line] + mb.lines + [qline]
+    for i in ids:
+        lines.append("call ORI %d 1" % i)
+        lines.append("call B2B %d 0 0 0 1" % i)
+    out = lean_query("\n".join(lines) + "\n")
+    res = {}
+    vals = [v for (k, n), v in out.items() if n in ("ORI", "B2B")]
+    # outputs are ordered; rebuild by scanning keys in numeric order
+    keys = sorted([k for k in out if k[1] in ("ORI", "B2B")], key=lambda k: int(k[0].split(".")[1]))
+    it = iter(keys)
+    for i in ids:
+        ko = next(it); kb = next(it)
+        E = [parse_fr(x) for x in out[ko]]
+        p = [parse_fr(x) for x in out[kb]]
+        res[i] = ([E[0:3], E[3:6], E[6:9]], p)
+    return res
+
+
+def jacobi_min_eig(A):
+    """smallest eigenvalue of a small symmetric matrix (floats), cyclic Jacobi"""
+    n = len(A)
+    A = [[float(x) for x in r] for r in A]
+    for _ in range(60):
+        off = sum(A[i][j] ** 2 for i in range(n) for j in range(n) if i != j)
+        if off < 1e-22:
+            break
+        for p in range(n):
+            for q in range(p + 1, n):
+                if abs(A[p][q]) < 1e-300:
+                    continue
+                th = 0.5 * math.atan2(2 * A[p][q], A[q][q] - A[p][p])
+                c, s = math.cos(th), math.sin(th)
+                for k in range(n):
+                    a, b = A[k][p], A[k][q]
+                    A[k][p], A[k][q] = c * a - s * b, s * a + c * b
+                for k in range(n):
+                    a, b = A[p][k], A[q][k]
+                    A[p][k], A[q][k] = c * a - s * b, s * a + c * b
+    return min(A[i][i] for i in range(n))
+
+
+def solve_frac(A, b):
+    """Gauss-Jordan over Fractions; returns None if singular"""
+    n = len(A)
+    M = [list(A[i]) + [b[i]] for i in range(n)]
+    for c in range(n):
+        pr = next((r for r in range(c, n) if M[r][c] != 0), None)
+        if pr is None:
+            return None
+        M[c], M[pr] = M[pr], M[c]
+        pv = M[c][c]
+        M[c] = [x / pv for x in M[c]]
+        for r in range(n):
+            if r != c and M[r][c] != 0:
+                f = M[r][c]
+                M[r] = [x - f * y for x, y in zip(M[r], M[c])]
+    return [M[i][n] for i in range(n)]
+
+
+class ConstraintBuilder:
+    """adds contact / loop constraints to a model at a given configuration"""
+
+    def __init__(self, g, mb, grav_line, qline):
+        self.g, self.mb, self.grav, self.qline = g, mb, grav_line, qline
+        self.lines = ["cs_new"]
+        self.nc = 0
+        self.kinds = []
+        self.has_loop = False
+        self.tags = set()
+
+    def candidates(self):
+        return list(range(1, self.mb.n_movable)) + self.mb.fixed_ids
+
+    def add_contact(self, nnorm=None):
+        g, mb = self.g, self.mb
+        body = g.r.choice([b for b in self.candidates() if b not in mb.virtual_ids] or self.candidates())
+        pt = g.vec(-1, 1)
+        nnorm = nnorm or g.r.randint(1, 3)
+        E = g.rot(0.3)
+        cols = [[E[0], E[3], E[6]], [E[1], E[4], E[7]], [E[2], E[5], E[8]]]
+        for k in range(nnorm):
+            self.lines.append("cs_contact %d %s %s %d" % (body, frs(pt), frs(cols[k]), 4294967295))
+            self.nc += 1
+        self.kinds.append("contact%d@%s" % (nnorm, "fixed" if body >= FIXED_DISC else "movable"))
+
+    def add_loop(self, klass, baumgarte=False):
+        """klass: 'base' (predecessor = base, frame at the base origin), 'ball' (3 translations,
+        coincident frames), 'd5a' (rotational axes, predecessor frame away from the base origin),
+        'd5b' (partial translations / separated frames with a moving predecessor)"""
+        g, mb = self.g, self.mb
+        cands = [b for b in self.candidates() if b not in mb.virtual_ids]
+        if klass == "base":
+            P = 0
+            XP = g.rot(0.3) + [F(0)] * 3
+        else:
+            P = g.r.choice(cands)
+            XP = g.frame(0.2)
+            if klass == "d5a" and XP[9:12] == [0, 0, 0]:
+                XP[9:12] = [F(1, 2), F(-1, 4), F(3, 4)]
+        S = g.r.choice([b for b in cands if b != P] or cands)
+        if S == P:
+            return False
+        # axes
+        tax = [[F(0)] * 3 + v for v in ([F(1), F(0), F(0)], [F(0), F(1), F(0)], [F(0), F(0), F(1)])]
+        rax = [v + [F(0)] * 3 for v in ([F(1), F(0), F(0)], [F(0), F(1), F(0)], [F(0), F(0), F(1)])]
+        if klass == "ball":
+            axes, free_t = tax, []
+        elif klass == "d5a":
+            nr = g.r.randint(1, 3)
+            axes = tax + g.r.sample(rax, nr)
+            free_t = []
+        elif klass == "d5b":
+            nt = g.r.randint(1, 2)
+            sel = g.r.sample([0, 1, 2], nt)
+            axes = [tax[i] for i in sel]
+            free_t = [i for i in range(3) if i not in sel]
+        else:  # base
+            nt = g.r.randint(0, 3)
+            nr = g.r.randint(0 if nt else 1, 3)
+            sel = g.r.sample([0, 1, 2], nt)
+            axes = [tax[i] for i in sel] + g.r.sample(rax, nr)
+            free_t = [i for i in range(3) if i not in sel]
+        # successor frame from exact kinematics
+        poses = body_poses(mb, self.grav, self.qline, [b for b in (P, S) if b != 0])
+        I3 = [[F(1), F(0), F(0)], [F(0), F(1), F(0)], [F(0), F(0), F(1)]]
+        EP, pP = poses.get(P, (I3, [F(0)] * 3))
+        ES, pS = poses[S]
+        Efp = [XP[0:3], XP[3:6], XP[6:9]]
+        RA = mat_mul(mat_T(EP), Efp)                       # constraint frame -> world
+        rA = [a + b for a, b in zip(pP, mat_vec(mat_T(EP), XP[9:12]))]
+        delta = [F(0)] * 3
+        if free_t and g.r.random() < 0.7:
+            for i in free_t:
+                delta[i] = g.small(-1, 1)
+        rB = [a + b for a, b in zip(rA, mat_vec(RA, delta))]
+        Efs = mat_mul(ES, RA)
+        rfs = mat_vec(ES, [a - b for a, b in zip(rB, pS)])
+        XS = Efs[0] + Efs[1] + Efs[2] + rfs
+        tst = g.r.choice([F(1, 10), F(1, 5), F(1, 2)])
+        for ax in axes:
+            self.lines.append("cs_loop %d %d %s %s %s %d %s %d" % (P, S, frs(XP), frs(XS), frs(ax),
+                                                                   1 if baumgarte else 0, fr(tst), 4294967295))
+            self.nc += 1
+        self.kinds.append("loop:%s:%dt%dr%s%s" % (klass, sum(1 for a in axes if a[:3] == [0, 0, 0]),
+                                                 sum(1 for a in axes if a[:3] != [0, 0, 0]),
+                                                 ":sep" if any(delta) else "", ":bg" if baumgarte else ""))
+        self.has_loop = True
+        self.tags.add(klass)
+        return True
+
+    def spec_G(self, qdline):
+        """exact constraint Jacobian of the specification at the configuration"""
+        lines = ["case gq", self.grav] + self.mb.lines + self.lines + [self.qline, qdline, "call CJ 1 1"]
+        out = lean_query("\n".join(lines) + "\n")
+        toks = [v for (k, n), v in out.items() if n == "CJ.spec"]
+        if not toks:
+            return None
+        nv = self.mb.nv
+        vals = [parse_fr(x) for x in toks[0]]
+        return [vals[r * nv:(r + 1) * nv] for r in range(self.nc)]
+
+    def conditioned(self, G, thresh=0.05):
+        if not G:
+            return True
+        GGt = [[sum(a * b for a, b in zip(r1, r2)) for r2 in G] for r1 in G]
+        return jacobi_min_eig(GGt) >= thresh * thresh
+
+    def project_velocity(self, G, qd):
+        """qd - G^T (G G^T)^-1 G qd  (exact)"""
+        if not G:
+            return qd
+        GGt = [[sum(a * b for a, b in zip(r1, r2)) for r2 in G] for r1 in G]
+        rhs = [sum(a * b for a, b in zip(r, qd)) for r in G]
+        mu = solve_frac(GGt, rhs)
+        if mu is None:
+            return None
+        return [qd[j] - sum(G[k][j] * mu[k] for k in range(len(G))) for j in range(len(qd))]
+
+
+def constrained_case(g, klasses, ncontacts, max_joints=4, baumgarte=False, allow_custom=False, need_free=1):
+    """returns (mb, grav_line, state_lines, cb) with a full-row-rank, well-conditioned constraint set
+    and a velocity satisfying the constraints, or None"""
+    for _ in range(12):
+        mb = random_model(g, max_joints=max_joints, allow_custom=allow_custom, fixed_prob=0.3)
+        if mb.nv < 3:
+            continue
+        grav = "gravity %s" % frs(g.vec(-3, 3))
+        st = mb.state_lines()
+        qline = st[0]
+        cb = ConstraintBuilder(g, mb, grav, qline)
+        for _ in range(ncontacts):
+            cb.add_contact()
+        ok = True
+        for k in klasses:
+            if not cb.add_loop(k, baumgarte):
+                ok = False
+        if not ok or cb.nc == 0 or cb.nc + need_free > mb.nv:
+            continue
+        nv = mb.nv
+        qd0 = [g.small() for _ in range(nv)]
+        G = cb.spec_G("qd %d %s" % (nv, frs(qd0)))
+        if G is None or not cb.conditioned(G):
+            continue
+        qd = cb.project_velocity(G, qd0)
+        if qd is None:
+            continue
+        st[1] = "qd %d %s" % (nv, frs(qd))
+        return mb, grav, st, cb
+    return None
